@@ -134,7 +134,7 @@ def run(ctx):
             sc = one_schedule(ctx, img, progs, solo, S.preempt_policy({}), False, label, dict(rep0, preempt={}))
             n = sc.step
             pts = list(range(1, n + 1))
-            cap = ctx.scale(70, 400)
+            cap = ctx.scale(70 if pi else 600, 400 if pi else 3000)     # the fixed first program: every single pre-emption point
             if len(pts) > cap:
                 pts = sorted(rng.sample(pts, cap))
             else:
